@@ -371,6 +371,11 @@ package primitive
 //@   invariant #0 count: written(dest) >= w0 + 2 && (len(list) <= 65535 ==> wbe2(dest, w0) == uint16(len(list)))
 //@   ensures len: result == nil ==> written(dest) == w0 + 2 + fold(LengthOfString, list, len(list))
 //@   ensures count: result == nil ==> written(dest) >= w0 + 2 && (len(list) <= 65535 ==> wbe2(dest, w0) == uint16(len(list)))
+//@ func ReadStringList
+//@   prop C02, C04
+//@   assigns rstream(source)
+//@   let p0 = pos(source)
+//@   ensures count: err == nil ==> len(decoded) == int(rbe2(source, p0))
 //@ func LengthOfStringList
 //@   prop C03
 //@   assigns nothing
